@@ -34,6 +34,13 @@ WIDE_SHAPES = [(1, 16), (2, 17), (3, 15), (4, 32), (5, 33), (6, 31), (7, 40), (8
 # their neighbours): all of them in every run, two styles each
 LONG_SHAPES = [(1, 63), (2, 64), (1, 65), (1, 96), (1, 127), (2, 128), (1, 129), (1, 192), (1, 255), (2, 256), (1, 256), (1, 257),
                (1, 384), (1, 511), (1, 512), (1, 513), (1, 768), (1, 1023), (1, 1024), (1, 1025)]
+# class v (static / thread-local scratch keyed on the element count, grow-only workspaces): call sequences IN ONE PROCESS whose shapes
+# are non-monotone — more rows with no more elements (2x100 then 5x11), fewer rows and more columns with fewer elements, the same
+# element count in different layouts, a return to an earlier shape; every function, plain and block ("B") variants
+SEQUENCES = [[(2, 100), (5, 11)], [(1, 300), (8, 9)], [(6, 20), (2, 50)], [(2, 64), (4, 32), (8, 16), (16, 8), (2, 64)],
+             [(8, 33), (3, 5), (8, 33)], [(3, 40), (7, 3), (1, 2), (9, 13)], [(12, 2), (2, 12), (24, 1), (1, 24), (5, 4)]]
+# empty operands (class x): a correct implementation returns an empty result; UBSan noise from Eigen's own headers is not a failure
+EMPTY_SHAPES = [(0, 3), (3, 0), (0, 0), (0, 1)]
 ROWS_ALL = [1, 2, 3, 4, 5, 6, 7, 8]
 COLS_ALL = [1, 2, 3, 4, 5, 6, 7, 8, 12, 15, 16, 17, 24, 31, 32, 33, 40]
 
@@ -71,7 +78,7 @@ def gen_angle(r, style):
 
 
 ANGLE_STYLES = ["small", "huge", "pi-multiple", "branch", "dyadic", "tiny"]
-STYLES = ANGLE_STYLES + ["near-dup", "mixed"]
+STYLES = ANGLE_STYLES + ["near-dup", "masked-dup", "mixed"]
 
 
 def gen_matrix(r, rows, cols, style):
@@ -86,6 +93,24 @@ def gen_matrix(r, rows, cols, style):
             M.append(row)
         return M
 
+    if style == "masked-dup":
+        # class o: consecutive COLUMNS equal relative to their norm (isApprox, 1e-12 of the norm) although they differ in a small row:
+        # row 0 carries a huge angle repeated bit-identically, the other rows differ from column to column by 1e-10 .. 1e-7 —
+        # far above the tolerance of those rows (a few eps), far below 1e-12 * |column|
+        if rows == 1:
+            return gen_matrix(r, rows, cols, "near-dup")
+        big = r.choice([-1, 1]) * 10 ** r.uniform(5.0, 6.4)
+        M = [[big] * cols]
+        for _ in range(rows - 1):
+            row = [r.uniform(-3.0, 3.0)]
+            for _ in range(cols - 1):
+                row.append(row[-1] + r.choice([-1, 1]) * 10 ** r.uniform(-10.0, -7.0))
+            M.append(row)
+        if r.random() < 0.5:
+            k = r.randrange(rows)
+            M[0], M[k] = M[k], M[0]
+        return M
+
     def one():
         s = style if style != "mixed" else r.choice(ANGLE_STYLES)
         return gen_angle(r, s)
@@ -95,15 +120,15 @@ def gen_matrix(r, rows, cols, style):
 VARIANT = {"B": False}
 
 
-def line_add(op, a, b):
+def line_add(op, a, b, cols=None):
     if VARIANT["B"]:
         op = op + "B"
-    rows, cols = len(a), len(a[0])
+    rows, cols = len(a), (len(a[0]) if a else cols)
     return " ".join([op, str(rows), str(cols)] + vlib.fmt_mat_cm(a) + [hexd(x) for x in b])
 
 
 def line_mean(a, w):
-    rows, cols = len(a), len(a[0])
+    rows, cols = len(a), (len(a[0]) if a else len(w))
     return " ".join(["dmeanB" if VARIANT["B"] else "dmean", str(rows), str(cols)] + vlib.fmt_mat_cm(a) + [hexd(x) for x in w])
 
 
@@ -117,17 +142,26 @@ def gen_addsub(g, shapes, n_extra):
     """base cases over all shapes x styles, each followed by a sibling with 2 pi-shifted arguments"""
     r = g.r
     cases = []
-    todo = [(rows, cols, st) for (rows, cols) in shapes for st in STYLES]
+    todo = [(rows, cols, st, None, None) for (rows, cols) in shapes for st in STYLES]
     for sh in WIDE_SHAPES:
         for st in r.sample(STYLES, 3):
-            todo.append((sh[0], sh[1], st))
+            todo.append((sh[0], sh[1], st, None, None))
     for sh in LONG_SHAPES:
-        todo.append((sh[0], sh[1], r.choice(STYLES)))
+        todo.append((sh[0], sh[1], r.choice(STYLES), None, None))
     for _ in range(n_extra):
-        todo.append(extra_shape(r) + (r.choice(STYLES),))
-    for rows, cols, st in todo:
-        VARIANT["B"] = r.random() < 0.3
-        op = r.choice(["dadd", "dsub"])
+        todo.append(extra_shape(r) + (r.choice(STYLES), None, None))
+    for seq in SEQUENCES:
+        for fop in ("dadd", "dsub"):
+            for fb in (False, True):
+                st = r.choice(["small", "huge", "mixed"])
+                for sh in seq:
+                    todo.append((sh[0], sh[1], st, fop, fb))
+    for sh in EMPTY_SHAPES:
+        for fop in ("dadd", "dsub"):
+            todo.append((sh[0], sh[1], "small", fop, False))
+    for rows, cols, st, fop, fb in todo:
+        VARIANT["B"] = (r.random() < 0.3) if fb is None else fb
+        op = r.choice(["dadd", "dsub"]) if fop is None else fop
         a = gen_matrix(r, rows, cols, st)
         bstyle = r.choice(ANGLE_STYLES + ["mixed"])
         b = [gen_angle(r, bstyle if bstyle != "mixed" else r.choice(ANGLE_STYLES)) for _ in range(rows)]
@@ -137,11 +171,11 @@ def gen_addsub(g, shapes, n_extra):
             # sums that are exactly +-fl(pi): a = fl(pi)/2 + fl(pi)/2 etc.
             a = [[r.choice([math.pi / 2, -math.pi / 2]) for _ in range(cols)] for _ in range(rows)]
             b = [r.choice([1, -1]) * math.pi / 2 for _ in range(rows)]
-        base = line_add(op, a, b)
+        base = line_add(op, a, b, cols)
         a2 = [[(shift_value(r, x) if r.random() < 0.7 else x) for x in row] for row in a]
         b2 = [(shift_value(r, x) if r.random() < 0.7 else x) for x in b]
-        sib = line_add(op, a2, b2)
-        meta = {"kind": op, "style": st, "shape": "%dx%d" % (rows, cols)}
+        sib = line_add(op, a2, b2, cols)
+        meta = {"kind": op, "style": st if fb is None else "sequence:" + st, "shape": "%dx%d" % (rows, cols)}
         cases.append((base, dict(meta, role="base")))
         cases.append((sib, dict(meta, role="shift", of=len(cases) - 1)))
     return cases
@@ -164,6 +198,34 @@ def weights(r, cols, wstyle):
         w = [r.uniform(0.02, 1.0) for _ in range(cols)]
         s_ = math.fsum(w)
         return [sc * x / s_ for x in w], wstyle
+    if wstyle == "ties":
+        # class q: admissible but unusual — positive weights with exact coincidences between arbitrary pairs of entries
+        # (w(1) == w(N-1), w(0) == w(N-1), w(0) == w(1), a random pair, all equal but one in the middle, equal halves) while the
+        # other entries differ: "looks like a sigma-point / uniform weight vector" detections that compare two entries only
+        w = [r.uniform(0.02, 1.0) for _ in range(cols)]
+        for _ in range(r.choice([1, 1, 2])):
+            pat = r.choice(["1,N-1", "0,N-1", "0,1", "pair", "all-but-one", "halves", "1,2"])
+            if pat == "1,N-1" and cols >= 3:
+                w[cols - 1] = w[1]
+            elif pat == "0,N-1":
+                w[cols - 1] = w[0]
+            elif pat == "0,1":
+                w[1] = w[0]
+            elif pat == "1,2" and cols >= 3:
+                w[2] = w[1]
+            elif pat == "all-but-one" and cols >= 3:
+                k = r.randrange(1, cols - 1) if cols >= 4 and r.random() < 0.7 else r.randrange(cols)
+                w = [w[0] if i != k else w[0] * r.choice([0.25, 3.0]) for i in range(cols)]
+            elif pat == "halves":
+                h = cols // 2
+                w = [w[0]] * h + [w[-1]] * (cols - h)
+            else:
+                i, j = r.randrange(cols), r.randrange(cols)
+                w[j] = w[i]
+        if r.random() < 0.7:
+            s = 2.0 ** math.floor(math.log2(math.fsum(w)))      # power of two: the coincidences survive the normalisation bit for bit
+            w = [x / s for x in w]
+        return w, wstyle
     if wstyle == "skewed":
         w = [10 ** r.uniform(-6, 0) for _ in range(cols)]
         s = math.fsum(w)
@@ -286,27 +348,34 @@ def gen_short(r, rows, cols):
 
 
 MEAN_STYLES = STYLES + ["const", "arc", "sigma", "short", "short"]
-W_STYLES = ["uniform", "positive", "skewed", "scaled", "unscented", "unscented-scaled"]
+W_STYLES = ["uniform", "positive", "skewed", "scaled", "ties", "ties", "unscented", "unscented-scaled"]
 
 
 def gen_mean(g, shapes, n_extra, stats):
     r = g.r
     cases = []
-    todo = [(rows, cols, st) for (rows, cols) in shapes for st in MEAN_STYLES]
+    todo = [(rows, cols, st, None) for (rows, cols) in shapes for st in MEAN_STYLES]
     for sh in WIDE_SHAPES:
         for st in r.sample(MEAN_STYLES[:-1], 4):
-            todo.append((sh[0], sh[1], st))
+            todo.append((sh[0], sh[1], st, None))
     for sh in LONG_SHAPES:
         for st in r.sample(MEAN_STYLES[:-1], 2):
-            todo.append((sh[0], sh[1], st))
+            todo.append((sh[0], sh[1], st, None))
     for _ in range(n_extra):
-        todo.append(extra_shape(r) + (r.choice(MEAN_STYLES),))
-    for rows, cols, st in todo:
-        VARIANT["B"] = r.random() < 0.3
+        todo.append(extra_shape(r) + (r.choice(MEAN_STYLES), None))
+    for seq in SEQUENCES:
+        for fb in (False, True):
+            st = r.choice(["small", "arc", "mixed", "const"])
+            for sh in seq:
+                if sh[1] >= 2:
+                    todo.append((sh[0], sh[1], st, fb))
+    todo.append((0, 3, "small", False))                                    # no rows: an empty result
+    for rows, cols, st, fb in todo:
+        VARIANT["B"] = (r.random() < 0.3) if fb is None else fb
         for attempt in range(50):
             wstyle = r.choice(W_STYLES)
             if st == "arc":
-                wstyle = r.choice(["uniform", "positive", "skewed"])       # positive weights
+                wstyle = r.choice(["uniform", "positive", "skewed", "ties"])       # positive weights
             if st == "sigma" and cols >= 3 and cols % 2 == 1:
                 wstyle = r.choice(["unscented", "unscented-scaled"])
             short = gen_short(r, rows, cols) if st == "short" else None
@@ -316,20 +385,38 @@ def gen_mean(g, shapes, n_extra, stats):
                 w, wstyle = weights(r, cols, wstyle)
                 a, extra = gen_mean_matrix(r, rows, cols, "mixed" if st == "short" else st, w, wstyle)
             L = [math.hypot(*resultant(a[i], w)) for i in range(rows)]
-            if min(L) >= 1e-6:
+            if not L or min(L) >= 1e-6:
                 break
             stats["regenerated_small_resultant"] = stats.get("regenerated_small_resultant", 0) + 1
         else:
             continue
-        meta = dict({"kind": "dmean", "style": st, "wstyle": wstyle, "shape": "%dx%d" % (rows, cols)}, **extra)
+        meta = dict({"kind": "dmean", "style": st if fb is None else "sequence:" + st, "wstyle": wstyle, "shape": "%dx%d" % (rows, cols)}, **extra)
         base_idx = len(cases)
         cases.append((line_mean(a, w), dict(meta, role="base")))
+        if rows == 0:
+            continue
         # sibling 1: 2 pi shifts of some samples
         sh = (lambda x: x + 2.0 * math.pi * r.choice([1, -1, 2, -3, 5])) if st == "short" else (lambda x: shift_value(r, x))
         a2 = [[(sh(x) if r.random() < 0.6 else x) for x in row] for row in a]
         if a2 == a:
             a2[0][0] = shift_value(r, a[0][0])
         cases.append((line_mean(a2, w), dict(meta, role="shift", of=base_idx)))
+        if r.random() < 0.35:
+            # sibling 1b (`mean_shift_single_sample`): one sample of one row shifted, nothing else
+            a2 = [list(row) for row in a]
+            i_, k_ = r.randrange(rows), r.randrange(cols)
+            a2[i_][k_] = sh(a2[i_][k_])
+            cases.append((line_mean(a2, w), dict(meta, role="shift", of=base_idx)))
+        if cols >= 2 and r.random() < 0.5:
+            # sibling 3 (`mean_perm_invariant`): the (sample, weight) pairs listed in another order
+            perm = list(range(cols))
+            while perm == list(range(cols)):
+                r.shuffle(perm)
+            cases.append((line_mean([[row[k] for k in perm] for row in a], [w[k] for k in perm]), dict(meta, role="perm", of=base_idx)))
+        if cols >= 2 and r.random() < 0.35:
+            # sibling 4 (`mean_scale_invariant`): all weights times a positive factor (a power of two: exact, or arbitrary)
+            sc = r.choice([2.0 ** r.randint(-30, 30), 10 ** r.uniform(-6, 6)])
+            cases.append((line_mean(a, [sc * x for x in w]), dict(meta, role="scale", of=base_idx)))
         # sibling 2: a common rotation d_i of all samples of row i
         d = [gen_angle(r, r.choice(["small", "dyadic"] if st == "short" else ["small", "huge", "branch", "dyadic"])) for _ in range(rows)]
         a3 = [[x + d[i] for x in a[i]] for i in range(rows)]
@@ -486,6 +573,15 @@ def check_mean(idx, cases, hres, dres, stats, problems):
                 problems.append(("prop", "directional_mean:outside-arc",
                                  "samples within %.3g of %r (mod 2 pi), positive weights, but the mean %r is %.3g away" % (dl, m, v, e), idx))
         # siblings: the real function run twice
+        if meta.get("role") in ("perm", "scale") and hres[meta["of"]] is not None:
+            vb = hres[meta["of"]][i]
+            tolp = 2 * tol + 16 * EPS
+            ep = min(abs(v - vb), abs(abs(v - vb) - 2 * PI_D))
+            stats["max_err_over_tol_perm_scale"] = max(stats.get("max_err_over_tol_perm_scale", 0.0), ep / tolp)
+            if ep > tolp:
+                problems.append(("prop", "directional_mean:" + ("order-dependent" if meta["role"] == "perm" else "weight-scale-dependent"),
+                                 "directional_mean changes from %r to %r when %s (the argument of the weighted resultant does not change)"
+                                 % (vb, v, "the (sample, weight) pairs are listed in another order" if meta["role"] == "perm" else "all weights are multiplied by a positive factor"), idx))
         if meta.get("role") in ("shift", "rotate"):
             bidx = meta["of"]
             hb = hres[bidx]
@@ -617,6 +713,34 @@ def run(ctx):
             check_addsub(idx, cases, hres, dres, stats, problems)
         if nontrivial(ln):
             distinct.add(ln)
+    # round trips through the real functions (`sub_add_cancel_wrap`, `add_sub_cancel_wrap`): the result of every base add / sub case is fed
+    # to the opposite function with the same offsets; the outcome must be the original matrix modulo 2 pi, in (-pi, pi]
+    p2 = []
+    for idx, (ln, m, h, d) in enumerate(cases):
+        if m["kind"] in ("dadd", "dsub") and m.get("role") == "base" and hres[idx] is not None:
+            op, rows, cols, a, b = parse(ln)
+            if rows * cols == 0 or cols > 130:
+                continue
+            inv = ("dsub" if op == "dadd" else "dadd") + ("B" if ln.split()[0].endswith("B") else "")
+            p2.append((idx, " ".join([inv, str(rows), str(cols)] + [hexd(x) for x in hres[idx]] + [hexd(x) for x in b])))
+    h2out, logs2 = vlib.run_harness(binary, [x[1] for x in p2])
+    for (idx, ln2), o2 in zip(p2, h2out):
+        op, rows, cols, a, b = parse(cases[idx][0])
+        v2 = parse_out(o2, rows * cols)
+        if v2 is None:
+            problems.append(("prop", "round-trip:no-result", "the opposite function failed on the result of %s: %s" % (op, o2[:80]), idx)); continue
+        stats["round_trip_entries"] = stats.get("round_trip_entries", 0) + rows * cols
+        for j in range(cols):
+            for i in range(rows):
+                y, v = hres[idx][j * rows + i], v2[j * rows + i]
+                tol = tol_angle(a[i][j], b[i]) + tol_angle(y, b[i])
+                if math.isnan(v) or not in_range(v):
+                    problems.append(("prop", "round-trip:out-of-range", "%s then the opposite function on (%r, %r) gives %r, not in (-pi, pi]" % (op, a[i][j], b[i], v), idx)); continue
+                e = dist_mod(Fraction(v) - Fraction(a[i][j]))
+                stats["max_err_over_tol_round_trip"] = max(stats.get("max_err_over_tol_round_trip", 0.0), e / tol)
+                if e > tol:
+                    problems.append(("prop", "round-trip:add-sub", "%s(%r, %r) = %r and the opposite function with the same offset gives %r, not congruent to the original angle (off by %.3g)"
+                                     % (op, a[i][j], b[i], y, v, e), idx))
     # second pass: the same cases through the plain -O2 build, same predicates
     plain = build_plain()
     pout, plogs = vlib.run_harness(plain, lines)
@@ -632,7 +756,20 @@ def run(ctx):
     stats["plain_build"] = {"cases": len(pcases), "crashes": len(plogs),
                             "max_err_over_tol_mean": pstats.get("max_err_over_tol_mean"), "max_err_over_tol_addsub": pstats.get("max_err_over_tol_addsub")}
     for i, log in list(plogs.items())[:3]:
-        ctx.violation("crash:plain:" + pout[i], "plain build crashed on a valid input: %s" % pout[i], {"harness": "h_dir (plain)", "input_lines": [lines[i]], "log": log[-1500:]})
+        ctx.violation("crash:plain:" + pout[i], "plain build crashed on a valid input: %s" % pout[i],
+                      {"harness": "h_dir (plain)", "input_lines": [c_[0] for c_ in cases[max(0, i - 12):i] if str(c_[1].get("style", "")).startswith("sequence:") and c_[1].get("role") == "base"] + [lines[i]], "log": log[-1500:]})
+    def history(idx):
+        """for a case of a call sequence (state surviving between calls would make the failure depend on the calls before it):
+        the preceding calls of the same sequence, to be replayed first in the same process"""
+        if not str(cases[idx][1].get("style", "")).startswith("sequence:"):
+            return []
+        out, k = [], idx - 1
+        while k >= 0 and len(out) < 12 and str(cases[k][1].get("style", "")).startswith("sequence:"):
+            if cases[k][1].get("role") == "base" and k != cases[idx][1].get("of"):
+                out.append(cases[k][0])
+            k -= 1
+        return out[::-1]
+
     prop_bad = [p for p in problems if p[0] == "prop"]
     corr_bad = [p for p in problems if p[0] == "corr"]
     seen = {}
@@ -649,6 +786,10 @@ def run(ctx):
             metas = [bm, dict(keep, of=0)]
         else:
             inputs, metas = [cases[idx][0]], [keep]
+        hist_ = history(idx)
+        if hist_:
+            inputs = hist_ + inputs
+            metas = [{"role": "base"}] * len(hist_) + [dict(m_, of=m_["of"] + len(hist_)) if "of" in m_ else m_ for m_ in metas]
         if key == SHORTCUT_KEY:
             what = ("regression of the defect repaired in e5e0548: directional_mean with exactly one column returns the column as is (not wrapped "
                     "into (-pi, pi]): directional_mean([7.0], w=[1.0]) = 7.0 whereas the argument of the weighted resultant is 0.7168...; "
@@ -664,7 +805,7 @@ def run(ctx):
                        "input_lines": [cases[idx][0]], "observed": [cases[idx][2][:1500]], "model": cases[idx][3][:1500]}, no_input=True)
     for i, log in list(logs.items())[:3]:
         ctx.violation("crash:" + cases[i][2], "implementation crashed on a valid input: %s" % cases[i][2],
-                      {"harness": "h_dir", "input_lines": [cases[i][0]], "log": log[-1500:]})
+                      {"harness": "h_dir", "input_lines": history(i) + [cases[i][0]], "log": log[-1500:]})
     ctx.coverage.update({
         "evaluations": len(cases), "distinct_nontrivial": len(distinct),
         "rule": "every shape rows 1..4 x columns 1..6 crossed with every angle style, wide shapes up to 8 x 40 (columns 7, 8, 12, 15, 16, 17, 24, 31, 32, 33, 40) crossed with sampled styles (small, huge up to 1e6*pi, rounded multiples of pi, "
